@@ -8,7 +8,7 @@ from fractions import Fraction
 from ..absint import FuncV, Interp, ObjV, VecV, State
 from ..forms import Const, Form, TupleV, fpow, mk_fn
 from ..rules import PI, S, find_raise_guards, names_in, check_late_binding
-from ..srcmodel import src_of
+from ..srcmodel import src_of, norm_src
 
 EXPLANATION = (
     "Sibling-agreement and closed-form rules on polynomial normal forms. C13.2: p_ase, the ON/OFF levels and the total variance "
@@ -508,8 +508,31 @@ def _shot_shape(v):
     return True
 
 
+def rule_box_edges(ctx):
+    """C13.9: the receiver-model helpers accept the inclusive edges of the stated parameter box exactly as they accept its interior:
+    G = 0 dB (unit gain) is a value, not a missing argument.  Differential: the set of raising exits reachable with G = 0 must be
+    contained in the set reachable with G = 20 (same assumptions otherwise) - a guard that tests truthiness instead of presence
+    adds one."""
+    pkg = ctx.pkg
+    for q, extra in (("utils.p_ase", {}), ("utils.average_voltages", {"modulation": "ook"}), ("utils.noise_variances", {"modulation": "ook"}),
+                     ("utils.theory_BER", {"modulation": "ook", "threshold": None, "decision": "hard"})):
+        fi = pkg.func(q)
+        got = {}
+        for g in (0, 20):
+            ass = dict(extra, amplify=True, NF=("truth", True), BW_opt=("truth", True))
+            it = Interp(pkg, assumptions=ass, param_values={"G": Form.num(g)})
+            outs = it.run(fi)
+            got[g] = ({(o.exc, norm_src(o.node)) for o in outs if o.kind == "raise"}, outs)
+        new = got[0][0] - got[20][0]
+        node = next((o.node for o in got[0][1] if o.kind == "raise" and (o.exc, norm_src(o.node)) in new), fi.node)
+        ctx.check("C13.9", not new, fi, node, f"{q.split('.')[-1]} [amplify=True]: G = 0 dB accepted like G = 20 dB", "no exit that only the edge value reaches",
+                  f"with G = 0 (unit gain, the inclusive lower edge of the stated range) the function reaches {sorted(e for e, _ in new)} at `{sorted(t for _, t in new)[0][:120] if new else ''}`, "
+                  "which G = 20 does not: a presence test written as a truthiness test treats the value 0 as a missing argument")
+
+
 def run(ctx):
     rule_receiver_model(ctx)
+    rule_box_edges(ctx)
     rule_error_probabilities(ctx)
     rule_optimum_threshold(ctx)
     rule_device_counterparts(ctx)
@@ -520,3 +543,4 @@ def run(ctx):
     ctx.require_min("C13.5", 4)
     ctx.require_min("C13.6", 3)
     ctx.require_min("C13.7", 5)
+    ctx.require_min("C13.9", 4)
